@@ -57,7 +57,7 @@ Qed.
 Theorem script_code_independent_of_texts mp tl1 tl2 name glob opt body x y :
   emit_script mp tl1 name glob opt body = Ok x -> emit_script mp tl2 name glob opt body = Ok y -> x = y.
 Proof.
-  unfold emit_script. destruct (work _ _) as [w| | | |]; try discriminate.
+  unfold emit_script. destruct (emit_graph body) as [w| | | |]; try discriminate.
   unfold render_chunks. intros H1 H2.
   destruct (render_bodies mp tl1 name (finals w) _ _) as [[b1 r1]| | | |] eqn:E1; try discriminate.
   destruct (render_bodies mp tl2 name (finals w) _ _) as [[b2 r2]| | | |] eqn:E2; try discriminate.
